@@ -301,7 +301,8 @@ func runCursorCase(ci interface{}, rec *pbt.Rec) *pbt.Failure {
 				}
 				if got != want {
 					key := "cursor-inconsistent"
-					if busy >= 2 && got.Block < b && got.Event > want.Event {
+					if busy >= 2 && got.Block < b && got.Event > want.Event && got.Event-want.Event < uint64(busy) {
+						// (the scan stopped at a bridge event inside block got.Block+1: some, not all, of its events were counted)
 						key = "cursor-keeps-counters-of-a-partly-scanned-block"
 					}
 					f := pbt.Failf(key, "history %s; stored position %d, node height %d, hub acknowledged nonce %d: persisted cursor {block %d, next event %d, next batch %d, valset %d} but %d bridge events lie at or below block %d, so it must be {next event %d, next batch %d, valset %d}",
